@@ -66,6 +66,8 @@ SCHEMES = ["Lowest", "Monotonic", "Barrier", "Topographical"]
 
 def regenerate(ctx: Ctx) -> None:
     ctx.gen_status.update(graph_tr.regenerate())
+    from translate import transcripts
+    ctx.gen_status.update(transcripts.check(["get_minima_energies", "get_ordered_minima", "get_batch_positions"]))
 
 
 # ----------------------------------------------------------------------------- generators
